@@ -435,6 +435,49 @@ func runC13(w *World, r *Report) {
 	ruleNoMutateParams(w, r, "C13.fresh-error", w.Fn("compose", "wrapGraphNodeError"), nil)
 	ruleNoMutateParams(w, r, "C13.fresh-error", w.Fn("compose", "wrapStreamWrapperError"), nil)
 
+	// a panic must not leave a framework mutex locked (it would be "contained" as an error while the run hangs)
+	r.Rule("C13.panic-safe-locks", "a framework mutex held across a call of a function value or interface method is released by a deferred Unlock; explicit Unlocks only follow framework-owned bookkeeping", 2)
+	if n := rulePanicSafeLocks(w, r, "C13.panic-safe-locks", "compose", "schema", "internal", "callbacks", "flow", "components", "utils"); n == 0 {
+		r.Info("C13.panic-safe-locks", "no explicit Unlock in the module", run0(w).Pos(), "all unlocks are deferred")
+	}
+
+	// the error of a failed node is what the run reports: the collector never replaces it (a post-handler run on the
+	// output of a failed node would overwrite it with its own complaint about the zero value, or panic on it outside any recover)
+	r.Rule("C13.task-error-kept", "taskManager.waitOne / waitAll store task.err only while it is still nil, and run the post-processor only then", 2)
+	{
+		taskErrF := w.Field("compose", "task", "err")
+		fPost := w.Field("compose", "chanCall", "postProcessor")
+		n := 0
+		for _, fname := range []string{"taskManager.waitOne", "taskManager.waitAll"} {
+			f := w.Fn("compose", fname)
+			errNil := func(g guard) bool {
+				return guardIsNil(g, func(v ssa.Value) bool { return isLoadOfField(v, taskErrF) })
+			}
+			for _, fw := range fieldWrites(f) {
+				if !sameField(fw.field, taskErrF) || fw.kind != "store" {
+					continue
+				}
+				n++
+				r.Check(hasGuard(fw.in.Block(), errNil), "C13.task-error-kept", fmt.Sprintf("%s: store to task.err", w.fname(f)), fw.in.Pos(), "only under task.err == nil", "the collector can overwrite the error of a failed node: errors.Is / errors.As on the run's error no longer find what the node returned")
+			}
+			instrs(f, func(in ssa.Instruction) {
+				c, ok := in.(ssa.CallInstruction)
+				if !ok {
+					return
+				}
+				for _, a := range c.Common().Args {
+					if isLoadOfField(a, fPost) {
+						n++
+						r.Check(hasGuard(in.Block(), errNil), "C13.task-error-kept", fmt.Sprintf("%s: post-processor call", w.fname(f)), in.Pos(), "only under task.err == nil", "the state post-handler also runs for a failed (or panicked) node, on its zero output and on the run-loop goroutine outside any recover: a handler that asserts / validates its input panics out of Invoke, or its error replaces the node's")
+					}
+				}
+			})
+		}
+		if n < 2 {
+			r.Fail("C13.task-error-kept", "collector: task.err stores / post-processor calls", w.Fn("compose", "taskManager.waitOne").Pos(), fmt.Sprintf("%d sites found (floor 2)", n))
+		}
+	}
+
 	// sentinel
 	r.Rule("C13.sentinel", "the step-limit exit of runner.run returns a run error whose cause is the ErrExceedMaxSteps sentinel itself (built at the exit, or once in a package-level variable)", 1)
 	run := w.Fn("compose", "runner.run")
@@ -545,3 +588,5 @@ func eofIdentityCheck(w *World, r *Report, rule string, pkgs ...string) {
 }
 
 var droppedErrExceptions = map[string]string{}
+
+func run0(w *World) *ssa.Function { return w.Fn("compose", "runner.run") }
